@@ -14,12 +14,61 @@ pub struct PanicInfo {
 }
 
 impl PanicInfo {
-    /// normalised: numbers / ids / quoted text abstracted, so that one
-    /// root cause has one signature
+    /// `<file>|<enclosing fn>|<message up to the first variable datum>`.
+    /// Line numbers are deliberately not part of it (they shift with every
+    /// edit); the enclosing function is looked up in the source file.
     pub fn signature(&self) -> String {
         let f = self.file.rsplit("/crates/").next().unwrap_or(&self.file);
-        format!("{}|{}", f, normalise(&self.message))
+        format!("{}|{}|{}", f, enclosing_fn(&self.file, self.line), cut_message(&self.message))
     }
+}
+
+pub fn cut_message(msg: &str) -> String {
+    let first = msg.lines().next().unwrap_or("");
+    let mut out = String::new();
+    for c in first.chars() {
+        if c.is_ascii_digit() || matches!(c, '"' | '\'' | '`' | '(' | '[' | '{' | '=' | '<') {
+            break;
+        }
+        out.push(c);
+        if out.len() >= 80 {
+            break;
+        }
+    }
+    out.trim_end().to_string()
+}
+
+/// name of the function whose body contains `line` of `file` (best effort)
+pub fn enclosing_fn(file: &str, line: u32) -> String {
+    use std::collections::HashMap;
+    use std::sync::Mutex;
+    static CACHE: Mutex<Option<HashMap<String, Vec<String>>>> = Mutex::new(None);
+    let mut g = CACHE.lock().unwrap_or_else(|e| e.into_inner());
+    let cache = g.get_or_insert_with(HashMap::new);
+    let lines = cache.entry(file.to_string()).or_insert_with(|| {
+        std::fs::read_to_string(file)
+            .map(|t| t.lines().map(|l| l.to_string()).collect())
+            .unwrap_or_default()
+    });
+    if lines.is_empty() || line == 0 {
+        return "?".into();
+    }
+    let mut i = (line as usize).min(lines.len());
+    while i > 0 {
+        i -= 1;
+        let l = lines[i].trim_start();
+        let l = l.strip_prefix("pub(crate) ").or_else(|| l.strip_prefix("pub(super) ")).or_else(|| l.strip_prefix("pub ")).unwrap_or(l);
+        let l = l.strip_prefix("const ").unwrap_or(l);
+        let l = l.strip_prefix("async ").unwrap_or(l);
+        let l = l.strip_prefix("unsafe ").unwrap_or(l);
+        if let Some(rest) = l.strip_prefix("fn ") {
+            let name: String = rest.chars().take_while(|c| c.is_alphanumeric() || *c == '_').collect();
+            if !name.is_empty() {
+                return name;
+            }
+        }
+    }
+    "?".into()
 }
 
 pub fn normalise(msg: &str) -> String {
@@ -186,4 +235,21 @@ pub fn materialise(dir: &Path, files: &[(String, String)]) {
         }
         std::fs::write(&p, text).expect("write project file");
     }
+}
+
+/// Run compiler code the way the CLI does. The whole harness process runs on
+/// a thread with exactly `CLI_STACK` bytes of stack (see `main`), so this only
+/// needs to capture panics.
+pub fn cli<T>(f: impl FnOnce() -> T) -> Result<T, PanicInfo> {
+    guarded(f)
+}
+
+/// Run `f` as the body of the process on a CLI-sized stack.
+pub fn run_main(f: impl FnOnce() -> i32 + Send + 'static) -> ! {
+    let h = std::thread::Builder::new()
+        .stack_size(CLI_STACK)
+        .spawn(f)
+        .expect("spawn main thread");
+    let code = h.join().unwrap_or(2);
+    std::process::exit(code)
 }
